@@ -22,7 +22,11 @@ from collections import defaultdict, deque
 VERIF = os.path.dirname(os.path.dirname(os.path.abspath(__file__)))
 REPO = os.environ.get("VERIF_REPO", "/repo")
 SPECS = os.path.join(VERIF, "specs")
-WORK = os.path.join(VERIF, "work")
+# VERIF_SCRATCH relocates work files, evidence and replays (used when a check is run against a mutated
+# copy of the repository given by VERIF_REPO, so that the registered evidence is not overwritten)
+SCRATCH = os.environ.get("VERIF_SCRATCH")
+WORK = os.path.join(SCRATCH, "work") if SCRATCH else os.path.join(VERIF, "work")
+OUT = SCRATCH if SCRATCH else VERIF
 HARNESS = os.path.join(VERIF, "harness")
 JAR = "/opt/veriftools/tla/tla2tools.jar:/opt/veriftools/tla/CommunityModules-deps.jar"
 
@@ -296,6 +300,16 @@ def cargo_build(crate, bins=None, timeout=7200):
     shutil.copy(lock_src, tmp)
     os.replace(tmp, lock_dst)
     cmd = ["cargo", "build", "--offline", "--release", "-p", crate]
+    if os.path.realpath(REPO) != "/repo":
+        # build against another checkout (a worktree with a mutation applied): override every workspace
+        # member of fuel-core by the same package in that checkout; same target dir, so third-party
+        # dependencies are reused
+        md = subprocess.run(["cargo", "metadata", "--no-deps", "--offline", "--format-version", "1"], cwd=REPO,
+                            stdout=subprocess.PIPE, stderr=subprocess.DEVNULL, text=True)
+        if md.returncode != 0:
+            raise ToolError("cargo metadata failed in %s" % REPO)
+        dirs = sorted({os.path.dirname(p["manifest_path"]) for p in json.loads(md.stdout)["packages"]})
+        cmd += ["--config", "paths=[%s]" % ",".join('"%s"' % d for d in dirs)]
     e = dict(os.environ)
     e["CARGO_NET_OFFLINE"] = "true"
     t0 = time.time()
@@ -509,7 +523,7 @@ def repo_lock(exclusive=False):
 
 
 def save_replay(prop, label, lines_or_obj):
-    d = os.path.join(VERIF, "replays", prop)
+    d = os.path.join(OUT, "replays", prop)
     os.makedirs(d, exist_ok=True)
     p = os.path.join(d, label)
     with open(p, "w") as f:
@@ -581,8 +595,8 @@ class Report:
         ev = {"property_id": self.prop, "tier": self.tier, "seed": seed(), "level": self.level,
               "coverage": cov, "assumptions": self.assumptions, "wall_s": round(wall, 1),
               "violations": len(self.violations)}
-        os.makedirs(os.path.join(VERIF, "evidence"), exist_ok=True)
-        with open(os.path.join(VERIF, "evidence", self.prop + ".json"), "w") as f:
+        os.makedirs(os.path.join(OUT, "evidence"), exist_ok=True)
+        with open(os.path.join(OUT, "evidence", self.prop + ".json"), "w") as f:
             json.dump(ev, f, indent=1)
         for d in self.divergences:
             log("DIVERGENCE (benign; property invariants hold on the implementation's states): %s" % d)
